@@ -1270,7 +1270,7 @@ func TestCalls(t *testing.T) {
 		extend(rt, p)
 		enrich(rt, p)
 		stressed := false
-		if rapid.IntRange(0, 2).Draw(rt, "stress") == 0 {
+		if rapid.IntRange(0, 2).Draw(rt, "stress") > 0 {
 			stressed = stress(rt, p)
 		}
 		svcs := services(p)
